@@ -157,6 +157,8 @@ REG['C11'] = {
         dict(id='c06_k_next', fn='SolarTerm::next', clause='24*year+index moves by exactly n'),
         dict(id='c08_k_month_next', thorough_only=True, fn='SixtyCycleMonth::next', clause='12*year + index moves by exactly n (|n| <= 300)'),
         dict(id='c11_k_div_euclid_12', fn='isize::div_euclid (std)', clause='the assumed Verus specification of div_euclid for the divisor 12: floor division, remainder in 0..12'),
+        dict(id='c11_k_sixty_day_next', fn='SixtyCycleDay::next', clause='hands exactly n to SolarDay::next on the wrapped day and rebuilds from exactly the day that comes back'),
+        dict(id='c11_k_sixty_hour_next', fn='SixtyCycleHour::next', clause='hands exactly n (seconds) to SolarTime::next on the wrapped instant and rebuilds from exactly the instant that comes back'),
         dict(id='c11_k_lunar_hour_carry', fn='LunarHour::next', clause='hour + 2n == 24 * (days handed to LunarDay::next) + new hour, 0 <= new hour < 24, minute and second kept, every hour and |n| < 2^40 (day step and constructor replaced by recording stubs)'),
         dict(id='c11_k_jd_next', thorough_only=True, fn='JulianDay::next / subtract', clause='f64 addition of n days is exact for |n| < 2^31 on half-integral dates'),
     ],
@@ -265,8 +267,8 @@ REG['C08'] = {
     'K': [dict(id='c08_k_first_month_args', fn='SixtyCycleYear::get_first_month', clause='stem index fed to the name lookup == Five-Tigers stem of the year stem, every year -1..9999 (index-faithful cheap constructors)'),
           dict(id='c08_k_month_next', thorough_only=True, fn='SixtyCycleMonth::next / get_index_in_year', clause='12*year + index moves by exactly n and the pillar by n, every month and |n| <= 300 (wider n: solver budget)'),
           dict(id='c08_k_month_pillar_args', fn='LunarMonth::get_sixty_cycle', clause='branch index == 2 + position, stem index == Five-Tigers stem + position (mod 10/12), every year and position'),
-          dict(id='c08_k_from_solar_day', fn='SixtyCycleDay::from_solar_day', clause='real body over ARBITRARY callee answers (start of spring, lunar date, governing term and its day, constrained only by C06 order and C02 year adjacency): year pillar year == civil year from the start-of-spring day on, previous year before it; month pillar == first-month pillar advanced by floor((term position - 3)/2); day pillar and date carried'),
-          dict(id='c09_k_from_solar_time', thorough_only=True, fn='SixtyCycleHour::from_solar_time (quick tier: run under C09)', clause='same at instant granularity: the year and month pillars switch at the term INSTANT; day pillar advanced by one from 23:00; hour pillar carried'),
+          dict(id='c08_k_from_solar_day', prefix=True, min_count=3, fn='SixtyCycleDay::from_solar_day (term positions 0..=26 split over three harnesses)', clause='real body over ARBITRARY callee answers (start of spring, lunar date, governing term and its day, constrained only by C06 order and C02 year adjacency): year pillar year == civil year from the start-of-spring day on, previous year before it; month pillar == first-month pillar advanced by floor((term position - 3)/2); day pillar and date carried'),
+          dict(id='c09_k_from_solar_time', prefix=True, min_count=3, thorough_only=True, fn='SixtyCycleHour::from_solar_time (quick tier: run under C09)', clause='same at instant granularity: the year and month pillars switch at the term INSTANT; day pillar advanced by one from 23:00; hour pillar carried'),
           dict(id='c08_k_pair_lemma', fn='(lemma over the contracts above)', clause='with pillar year Y (civil year or the one before, by start of spring) and month pillar = first-month pillar of the civil year + k: month branch == Yin + k and month stem == Five-Tigers stem of the stem of Y + position; hence only legal year/month pairs')],
     'level': 'other',
     'design_ref': '5/C08',
@@ -290,16 +292,23 @@ REG['C08'] = {
 }
 
 REG['C09'] = {
+    'harness_timeout': {'quick': '25m', 'thorough': '60m'}, 'wall_timeout': {'quick': 2700, 'thorough': 6 * 3600},
     'K': [dict(id='c09_k_hour_index', fn='LunarHour::get_index_in_day', clause='index in day == floor((hour+1)/2) for every hour and every lunar day'),
           dict(id='c09_k_hour_pillar_args', fn='LunarHour::get_sixty_cycle', clause='for all 60 day pillars x 24 hours: branch index fed to the name lookup == floor((h+1)/2) mod 12, stem index == Five-Rats stem of the day stem (next day from 23:00) + branch (mod 10); real body, index-faithful cheap constructors + recording stubs'),
-          dict(id='c09_k_from_solar_time', fn='SixtyCycleHour::from_solar_time', clause='the four pillars are composed from the lunar day pillar (advanced by one from 23:00), the lunar hour pillar, and the year / month pillars switching at the term instants; real body over arbitrary callee answers')],
+          dict(id='c09_k_from_solar_time', prefix=True, min_count=3, fn='SixtyCycleHour::from_solar_time (term positions split over three harnesses)', clause='the four pillars are composed from the lunar day pillar (advanced by one from 23:00), the lunar hour pillar, and the year / month pillars switching at the term instants; real body over arbitrary callee answers')],
     'level': 'other',
     'design_ref': '5/C09',
-    'technique': 'hour-pillar contract (branch floor((h+1)/2) mod 12, Five Rats, 23:00 roll) executed over all 60 x 24 combinations; eight characters == four pillars; inverse search soundness/completeness by seeded execution',
+    'technique': 'Kani on the hour-pillar arguments and on SixtyCycleHour::from_solar_time (real bodies); Verus on the soundness clause of the inverse search (real body of EightChar::get_solar_times); hour-pillar contract (branch floor((h+1)/2) mod 12, Five Rats, 23:00 roll) executed over all 60 x 24 combinations; eight characters == four pillars; inverse search soundness/completeness by seeded execution',
     'level_text': 'Deductive part (Kani, real body of LunarHour::get_sixty_cycle, all 60 x 24): the branch and stem indices fed to the name lookup follow floor((h+1)/2) mod 12, the Five-Rats rule and the 23:00 roll. Finite part decided completely by execution: all 60 day pillars x 24 hours x {first, last second}: hour branch, hour stem by Five Rats from the (rolled) day stem, index in day, both eight-character providers. Composition on random instants 0002..9997. Inverse search (bounded, VERIF_SEED-driven): every returned instant has the characters, and the double-hour of the queried instant contains a returned instant (double-hours containing a Jie instant skipped).',
     'level_note': 'the hour-pillar functions build name-table objects through format! and cannot be symbolically executed (DESIGN 2.3); the 1,440-case enumeration is complete for the finite clause; the inverse search is sampled (about 2,000 searches per run), not proved',
     'explanation': 'exhaustive execution of the finite hour-pillar contract + bounded execution of composition and inverse-search contracts',
     'functions': ['LunarHour::get_sixty_cycle', 'LunarHour::get_index_in_day', 'SixtyCycleHour::from_solar_time', 'SixtyCycleHour::get_index_in_day', 'SixtyCycleHour::get_eight_char', 'DefaultEightCharProvider / LunarSect2EightCharProvider', 'EightChar::get_solar_times'],
+    'V': [
+        dict(id='c09_inverse_sound', template='verus/c09_inverse_sound.rs', twin_quick=True,
+             twin=[('ensures r == (self.key() == other.key()) { unimplemented!() }', 'ensures r ==> true { unimplemented!() }')],
+             clause='EightChar::get_solar_times returns only instants whose eight characters equal the sought ones and whose year is >= start_year, for every range (real body; every calendar callee arbitrary; the f64 cycle alignment havocked by rule E11)',
+             paired_leaf=[dict(id='c09_inv_search', check='c09_inverse', range=(62, 9870), chunks=32)]),
+    ],
     'L': [
         dict(id='c09_hour_pillar', check='c09_hour_pillar', range=(0, 0), chunks=1, exhaustive=True, domain='60 day pillars x 24 hours x 2 seconds', clause='hour pillar rule, 23:00 roll, eight characters == pillars'),
         dict(id='c09_compose', check='c09_compose', range=(2, 9997), chunks=64, domain='6 random instants per year', clause='eight characters == year, month, day, hour pillars; day/hour by rule'),
@@ -313,7 +322,7 @@ REG['C14'] = {
     'technique': 'Verus on SolarWeek::next and LunarWeek::next extracted verbatim (both loops each) + exhaustive execution of the week contract over every civil month x 7 week starts and every lunar month',
     'level_text': 'Deductive part: SolarWeek::next moves the first day by exactly 7n for every week, every n and any month-length / first-weekday tables consistent with consecutive months (Verus, real loops). Leaf part (exhaustive execution): for every civil month 0001-02..9999-11 and every lunar month, 7 week starts, all indices: count == number of rows, first day on the chosen weekday at day1 + 7*index - offset, 7 consecutive days, coverage, refusal of index == count; week of a date contains it; index in year.',
     'level_note': 'week count uses an f64 ceil (outside Verus): its contract ceil((offset+len)/7), assumed by the Verus unit, is proved by Kani on the real body (c14_k_*_week_count) and also executed for every month; the weekday of the first of the month is an arbitrary answer in those harnesses (the weekday formula itself is c07_k_week); LunarWeek::next is verified over an abstract tiling lunar month table (L-NEW)',
-    'functions': ['SolarWeek::next', 'LunarWeek::next', 'SolarMonth::get_week_count', 'LunarMonth::get_week_count', 'SolarWeek::get_first_day', 'LunarWeek::get_first_day', 'SolarDay::get_solar_week', 'SolarWeek::new / get_days / get_index_in_year (leaf)', 'LunarWeek::new / get_days (leaf)'],
+    'functions': ['SolarWeek::next', 'LunarWeek::next', 'SolarMonth::get_week_count', 'LunarMonth::get_week_count', 'SolarWeek::get_first_day', 'LunarWeek::get_first_day', 'SolarDay::get_solar_week', 'SolarWeek::get_days / get_index_in_year', 'LunarWeek::get_days', 'SolarWeek::new / LunarWeek::new (leaf)'],
     'K': [
         dict(id='c14_k_solar_week_count', fn='SolarMonth::get_week_count', clause='== ceil((offset of the first of the month in its week + month length) / 7) through the f64 ceil, every month, week start and (arbitrary) weekday of the first'),
         dict(id='c14_k_solar_week_first_day', fn='SolarWeek::get_first_day', clause='steps 7*index - offset days from the first of the month (day step recorded)'),
@@ -324,7 +333,7 @@ REG['C14'] = {
     'V': [
         dict(id='c14_week_step', template='verus/c14_week_step.rs', twin_quick=True,
              twin=[('r.first() == self.first() + 7 * n,', 'r.first() == self.first() + 7 * n + 7,')],
-             clause='SolarWeek::next and LunarWeek::next: the first day moves by exactly 7n; from_ym never refused',
+             clause='SolarWeek::next and LunarWeek::next: the first day moves by exactly 7n, from_ym never refused; get_days lists the 7 consecutive days from the first day (both views); SolarWeek::get_index_in_year counts weeks from the week 0 of January and terminates; lemmas: a week starts on the chosen weekday, the weeks of a month cover every day of it',
              paired_leaf=[dict(id='c14_search', check='c14_solar_weeks', range=(1, 9999), chunks=32)]),
     ],
     'L': [
@@ -359,15 +368,19 @@ REG['C15'] = {
 REG['C16'] = {
     'level': 'proof',
     'design_ref': '5/C16',
-    'technique': 'Verus on the unit conversion of all three shipped get_info bodies (Default, China95, LunarSect2) and AbstractChildLimitProvider::next (day-overflow loop) extracted verbatim; seeded execution of ChildLimit / fortunes for all four strategies',
-    'level_text': 'Deductive part (Verus, real code): seconds -> (years, months, days, hours, minutes) at 3 d = 1 y, 1 d = 4 mo, 1 h = 5 d, 1 min = 2 h, 1 s = 2 min exactly (259200*Y + 21600*M + 720*D + 30*H + Mi/2 == seconds, field ranges), the minute-based forms of China95 (4320*Y + 360*M + 12*D <= minutes < +12) and LunarSect2 (4320*Y + 360*M + 12*D + H/2 == minutes); the calendar addition carries seconds->minutes->hours->days and overflows days month by month, terminating with a day inside the month. Leaf part (bounded, seeded): direction rule, governing Jie, end == birth + units, never before birth / at most 11 years, decade and yearly fortunes, the three other shipped strategies.',
+    'technique': 'Verus on the unit conversion of all four shipped get_info bodies (Default, China95, LunarSect1, LunarSect2), on decade / yearly fortunes and AbstractChildLimitProvider::next (day-overflow loop) extracted verbatim; seeded execution of ChildLimit / fortunes for all four strategies',
+    'level_text': 'Deductive part (Verus, real code): seconds -> (years, months, days, hours, minutes) at 3 d = 1 y, 1 d = 4 mo, 1 h = 5 d, 1 min = 2 h, 1 s = 2 min exactly (259200*Y + 21600*M + 720*D + 30*H + Mi/2 == seconds, field ranges), the minute-based forms of China95 (4320*Y + 360*M + 12*D <= minutes < +12) and LunarSect2 (4320*Y + 360*M + 12*D + H/2 == minutes), the double-hour form of LunarSect1 (360*Y + 30*M + D == 10 * double-hours between the two instants counted by day and double-hour index); decade fortunes step the month pillar by +-(i+1) with start ages 10 apart, yearly fortunes step the hour pillar by +-age from the year the limit ends; the calendar addition carries seconds->minutes->hours->days and overflows days month by month, terminating with a day inside the month. Leaf part (bounded, seeded): direction rule, governing Jie, end == birth + units, never before birth / at most 11 years, decade and yearly fortunes, the three other shipped strategies.',
     'level_note': 'ChildLimit::from_solar_time touches the provider mutex, f64 term instants and name-table pillars: executed on 7 births x 2 genders per year (seed-rotated), not proved; callee contracts: SolarMonth::next/get_day_count (C11/C01), SolarTime::subtract (C12)',
-    'functions': ['DefaultChildLimitProvider::get_info', 'China95ChildLimitProvider::get_info', 'LunarSect2ChildLimitProvider::get_info', 'AbstractChildLimitProvider::next', 'ChildLimit::from_solar_time (leaf)', 'DecadeFortune::* / Fortune::* (leaf)'],
+    'functions': ['DefaultChildLimitProvider::get_info', 'China95ChildLimitProvider::get_info', 'LunarSect1ChildLimitProvider::get_info', 'LunarSect2ChildLimitProvider::get_info', 'AbstractChildLimitProvider::next', 'DecadeFortune::new / next / get_start_age / get_end_age / get_start_sixty_cycle_year / get_end_sixty_cycle_year / get_sixty_cycle / get_start_fortune', 'Fortune::new / next / get_age / get_sixty_cycle_year / get_sixty_cycle', 'ChildLimit::from_solar_time (leaf)'],
     'V': [
         dict(id='c16_child_limit', template='verus/c16_child_limit.rs', twin_quick=True,
              twin=[('r.minute_count / 2 == abs_diff(term.ti(), birth_time.abs()),', 'r.minute_count / 2 == abs_diff(term.ti(), birth_time.abs()) + 1,')],
              clause='unit conversion is exact; calendar addition with carries ends on a valid day of the carried month',
              paired_leaf=[dict(id='c16_search', check='c16_child_limit', range=(2, 9950), chunks=32)]),
+        dict(id='c16_fortunes', template='verus/c16_fortunes.rs', twin_quick=True,
+             twin=[('ensures r == self.child_limit.end_year() - self.child_limit.birth_year() + 1 + 10 * self.index,', 'ensures r == self.child_limit.end_year() - self.child_limit.birth_year() + 10 * self.index,')],
+             clause='decade fortunes step the month pillar by +-(i+1) with start ages 10 apart from (end year - birth year + 1); yearly fortunes step the hour pillar by +-age from the year the limit ends; stepping adds to the index',
+             paired_leaf=[dict(id='c16_fsearch', check='c16_child_limit', range=(2, 9950), chunks=32)]),
     ],
     'L': [
         dict(id='c16_child_limit', check='c16_child_limit', range=(2, 9950), chunks=64, domain='7 births (3 random, 3 within 30 s of a Jie, 1 month end 23:59) x 2 genders per year', clause='direction, governing Jie, units, end time, bounds, fortunes, four strategies'),
